@@ -15,6 +15,9 @@ ANCHORS = [
 ]
 DECIDING = ["uri-remap:remap_uri_prefixes", "uri-remap:rewire"]
 RULE = (
+    "bounded world: every injective mapping with at most 2 (quick) / 3 (thorough) pairs over the URI prefixes (resp. CURIE "
+    "prefixes) of a fixed two-record converter, unknown keys and used / own / foreign / new values, through "
+    "remap_uri_prefixes and rewire (coverage.small_world_exhaustive). Random part: "
     "case = strict converter of 1-3 records with CURIE and URI synonyms over tiny alphabets, and an injective mapping of "
     "1-3 pairs: for remap_uri_prefixes keys among canonical URI prefixes / URI synonyms / unknown strings; for rewire keys "
     "among canonical CURIE prefixes / CURIE synonyms / unknown; values among unused strings, the record's own synonym, its "
@@ -32,10 +35,61 @@ PA = ["a", "b", "c", "d", "e", "A"]
 UA = ["u1/", "u2/", "u3/", "u4/", "u5/", "u6/", "u7/", "U1/"]
 
 
+# ---- bounded-exhaustive small world: every injective mapping with <= 3 pairs over small name sets -------------------
+import itertools
+
+SMALL_RECS = [spec.Rec("a", "u1/", ("s",), ("u2/", "u3/"), None), spec.Rec("b", "v1/", ("t",), ("v2/",), "^x$")]
+SMALL_UKEYS = ["u1/", "u2/", "u3/", "v1/", "v2/", "x/"]
+SMALL_PKEYS = ["a", "s", "b", "t", "zz"]
+SMALL_VALS = ["u1/", "u2/", "v1/", "v2/", "n1/", "n2/", "x/"]
+
+
+def small_mappings(keys, kmax):
+    out = []
+    for k in range(1, kmax + 1):
+        for ks in itertools.combinations(keys, k):
+            for vs in itertools.permutations(SMALL_VALS, k):  # injective
+                out.append(dict(zip(ks, vs)))
+    return out
+
+
+SMALL_CHUNK = 400
+_SMALL = {}
+
+
+def _world(tier):
+    if tier not in _SMALL:
+        kmax = 3 if tier == "thorough" else 2
+        _SMALL[tier] = [("remap_uri_prefixes", m) for m in small_mappings(SMALL_UKEYS, kmax)] + [("rewire", m) for m in small_mappings(SMALL_PKEYS, kmax)]
+    return _SMALL[tier]
+
+
+def small_world_case(ctx, g):
+    import curies
+
+    api, S = ctx.api, probe.S
+    for op, m in _world(ctx.tier)[g * SMALL_CHUNK:(g + 1) * SMALL_CHUNK]:
+        c = api.Converter([gen.mk_record(api, r) for r in SMALL_RECS])
+        call(getattr(curies, op), c, dict(m))
+        S.counters["wl:small-world-mappings"] += 1
+    probe.note_key(f"small-world:chunk{g}", True)
+
+
+def EXHAUSTIVE(tier, counters):
+    n = counters.get("wl:small-world-mappings", 0)
+    total = len(_world(tier))
+    return {
+        "small_world_exhaustive": n == total,
+        "explanation": f"{n} of {total} injective mappings enumerated (<= {3 if tier == 'thorough' else 2} pairs; keys over every URI prefix / CURIE prefix of a fixed two-record converter plus unknown ones, values over used, own, foreign and new URI prefixes); random cases beyond that are sampling",
+    }
+
+
 def run_case(ctx, g, rng):
     import curies
 
     api, S = ctx.api, probe.S
+    if g * SMALL_CHUNK < len(_world(ctx.tier)):
+        small_world_case(ctx, g)
     ps, us = rng.sample(PA, k=len(PA)), rng.sample(UA, k=len(UA))
     n = rng.randint(1, 3)
     recs = []
